@@ -19,6 +19,10 @@ def make_wl(rng, k):
         spec["n_bams"] = rng.choice([2, 3])
         spec["unmapped"] = rng.choice([3, 4, 5])
         spec["n_exp"] = 1
+    # mapping qualities on and around the documented cut-offs (inconsistent: 5, simple alignments: 1, --min_mapq)
+    spec["mapq_mix"] = 1 if (k is not None and k % 2 == 1) or (k is None and rng.random() < 0.5) else 0
+    if spec["mapq_mix"] and rng.random() < 0.3:
+        opts["extra"] = ["--min_mapq", str(rng.choice([4, 5, 10, 20]))]
     # chrP: >= 1024 short reads inside one coverage bin; a deep island whose last coverage valley is its last bin
     spec["pile"] = 1 if (k is not None and k % 4 == 1) or (k is None and rng.random() < 0.15) else 0
     if k is not None and (spec["pile"] or spec["long_locus"]):
